@@ -205,8 +205,8 @@ pub fn def() -> PropertyDef {
                non-trivial = at least one sample plus audio, metadata, B-frames or >= 2 fragments",
         assumptions: &["the strict box grammar in src/reader.rs follows ISO/IEC 14496-12 container/FullBox/sample-entry nesting"],
         subs: vec![
-            Box::new(PSub { name: "progressive", quick: 4000, thorough: 120_000, strat, eval }),
-            Box::new(PSub { name: "fragmented", quick: 3000, thorough: 100_000, strat: strat_frag, eval: eval_frag }),
+            Box::new(PSub { name: "progressive", quick: 30000, thorough: 800000, strat, eval }),
+            Box::new(PSub { name: "fragmented", quick: 20000, thorough: 600000, strat: strat_frag, eval: eval_frag }),
         ],
     }
 }
